@@ -1,0 +1,99 @@
+//go:build verif
+
+package types
+
+// C17 (parameter side): the per-field validators handed to the legacy x/params subspace accept exactly the values
+// Params.Validate accepts for that field, so the legacy param-change route cannot store what Validate refuses.
+
+/*@
+// what Params.Validate accepts, field by field (the conjuncts of its `valid` clause in zz_contracts_verif.go)
+specfunc ok_denominator(v int) bool = v != 0
+specfunc ok_elasticity(v int) bool = v != 0
+specfunc ok_basefee(v int) bool = v >= 0
+specfunc ok_enableheight(v int) bool = v >= 0
+specfunc ok_mingasprice(v int) bool = v >= 0
+specfunc ok_mingasmultiplier(v int) bool = v >= 0 && v <= dec_one()
+
+func validateBool
+    ensures c17p_iff: result == nil <==> typeis(i, "bool")
+
+func validateBaseFeeChangeDenominator
+    ensures c17p_iff: result == nil <==> (typeis(i, "uint32") && ok_denominator(unbox(i, "uint32")))
+
+func validateElasticityMultiplier
+    ensures c17p_iff: result == nil <==> (typeis(i, "uint32") && ok_elasticity(unbox(i, "uint32")))
+
+func validateBaseFee
+    ensures c17p_iff: result == nil <==> (typeis(i, "cosmossdk.io/math.Int") && ok_basefee(unbox(i, "cosmossdk.io/math.Int")))
+
+func validateEnableHeight
+    ensures c17p_iff: result == nil <==> (typeis(i, "int64") && ok_enableheight(unbox(i, "int64")))
+
+// ---- constructors
+func NewParams
+    ensures c17p_fields: result.NoBaseFee == noBaseFee && result.BaseFeeChangeDenominator == baseFeeChangeDenom
+            && result.ElasticityMultiplier == elasticityMultiplier && result.BaseFee == baseFee && result.EnableHeight == enableHeight
+            && result.MinGasPrice == minGasPrice && result.MinGasMultiplier == minGasPriceMultiplier
+
+// The package-level variables DefaultMinGasPrice / DefaultMinGasMultiplier / DefaultEnableHeight / DefaultNoBaseFee: the engine names
+// the (immutable, unknown) value of a package variable glob_<pkg>_<Var>; a spec constant of the same name denotes that value.
+const glob_types_DefaultMinGasPrice int
+const glob_types_DefaultMinGasMultiplier int
+const glob_types_DefaultEnableHeight int
+const glob_types_DefaultNoBaseFee bool
+specfunc g_DefaultMinGasPrice() int = glob_types_DefaultMinGasPrice
+specfunc g_DefaultMinGasMultiplier() int = glob_types_DefaultMinGasMultiplier
+specfunc g_DefaultEnableHeight() int = glob_types_DefaultEnableHeight
+specfunc g_DefaultNoBaseFee() bool = glob_types_DefaultNoBaseFee
+
+func DefaultParams
+    requires globals_valid: ok_mingasprice(g_DefaultMinGasPrice()) && ok_mingasmultiplier(g_DefaultMinGasMultiplier()) && ok_enableheight(g_DefaultEnableHeight())
+    ensures c17p_fields: result.NoBaseFee == g_DefaultNoBaseFee() && result.BaseFeeChangeDenominator == 8
+            && result.ElasticityMultiplier == 2 && result.BaseFee == 1000000000 && result.EnableHeight == g_DefaultEnableHeight()
+            && result.MinGasPrice == g_DefaultMinGasPrice() && result.MinGasMultiplier == g_DefaultMinGasMultiplier()
+
+func verifDefaultParamsValid
+    requires globals_valid: ok_mingasprice(g_DefaultMinGasPrice()) && ok_mingasmultiplier(g_DefaultMinGasMultiplier()) && ok_enableheight(g_DefaultEnableHeight())
+    ensures c17p_default_valid: result == nil
+
+// ---- ParamSetPairs wiring, decided over the SSA of the real table (no solver): the k-th pair registers the key of field F with the
+// validator of field F. Together with the `c17p_iff` contracts of the validators this says that the legacy parameter-change route
+// stores a value for a key exactly when Params.Validate accepts it for that field.
+// FINDING AC1 (fixed): the MinGasMultiplier key was paired with validateMinGasPrice (any non-negative Dec, also > 1)
+func (*Params).ParamSetPairs
+    structural
+    wired c17p_key_nobasefee: NewParamSetPair#1 arg 0 from global:ParamStoreKeyNoBaseFee
+    wired c17p_val_nobasefee: NewParamSetPair#1 arg 2 from func:validateBool
+    wired c17p_key_denominator: NewParamSetPair#2 arg 0 from global:ParamStoreKeyBaseFeeChangeDenominator
+    wired c17p_val_denominator: NewParamSetPair#2 arg 2 from func:validateBaseFeeChangeDenominator
+    wired c17p_key_elasticity: NewParamSetPair#3 arg 0 from global:ParamStoreKeyElasticityMultiplier
+    wired c17p_val_elasticity: NewParamSetPair#3 arg 2 from func:validateElasticityMultiplier
+    wired c17p_key_basefee: NewParamSetPair#4 arg 0 from global:ParamStoreKeyBaseFee
+    wired c17p_val_basefee: NewParamSetPair#4 arg 2 from func:validateBaseFee
+    wired c17p_key_enableheight: NewParamSetPair#5 arg 0 from global:ParamStoreKeyEnableHeight
+    wired c17p_val_enableheight: NewParamSetPair#5 arg 2 from func:validateEnableHeight
+    wired c17p_key_mingasprice: NewParamSetPair#6 arg 0 from global:ParamStoreKeyMinGasPrice
+    wired c17p_val_mingasprice: NewParamSetPair#6 arg 2 from func:validateMinGasPrice
+    wired c17p_key_mingasmultiplier: NewParamSetPair#7 arg 0 from global:ParamStoreKeyMinGasMultiplier
+    wired c17p_val_mingasmultiplier: NewParamSetPair#7 arg 2 from func:validateMinGasMultiplier
+@*/
+
+// verifDefaultParamsValid: ghost composition DefaultParams().Validate().
+func verifDefaultParamsValid() error {
+	return DefaultParams().Validate()
+}
+
+/*@
+// Extensions of contracts declared in zz_contracts_verif.go (loaded first by the engine).
+// both directions for Validate (the shared file only has "nil ==> valid")
+extend func (Params).Validate
+    ensures c17p_iff: result == nil <==> (ok_denominator(p.BaseFeeChangeDenominator) && ok_elasticity(p.ElasticityMultiplier)
+            && ok_basefee(p.BaseFee) && ok_enableheight(p.EnableHeight)
+            && ok_mingasprice(p.MinGasPrice) && ok_mingasmultiplier(p.MinGasMultiplier))
+
+extend func validateMinGasPrice
+    ensures c17p_iff: result == nil <==> (typeis(i, "cosmossdk.io/math.LegacyDec") && ok_mingasprice(unbox(i, "cosmossdk.io/math.LegacyDec")))
+
+extend func validateMinGasMultiplier
+    ensures c17p_iff: result == nil <==> (typeis(i, "cosmossdk.io/math.LegacyDec") && ok_mingasmultiplier(unbox(i, "cosmossdk.io/math.LegacyDec")))
+@*/
